@@ -21,12 +21,12 @@ import (
 
 func init() {
 	register(&Prop{ID: "C14", Run: c14Run,
-		Rule: "item texts (VALUE RANGE; foreach, callrep and nest records): plain words and — one item in three — texts with leading / trailing / inner white space (space, tab, NBSP, NEL, CR, line ends), white-space-only and empty texts, letter-case twins, non-ASCII incl. supplementary-plane characters and U+FFFD, characters that look like syntax ({ } ( ) [ ] = : # ! \\ / . ~ -), digit strings beyond 64 bits and at 2^53+1, boolean / null spellings: the variable is bound to the item AS IT IS (texts yaml.v3 cannot carry through the generated-YAML entry point are left out; keys of a queried container stay path-safe, with letter-case twins). foreach: item source {literal items, list query, dotted list query, query of a list inside a list (`nest[1]`), query of a SPARSE list the program itself fills through indexed paths (`xs[3]`; the slots in between are padding), leaf query, container query, list of containers, missing path} x NULL entries (YAML nulls, never-written slots, a null leaf; one, several, all of them — a null entry is an item) x variable {default, named} x body {ext trace, log, both} + logging child + failing position {none, top-level abort/ext-fail (first item), conditional child at the first flagged item, non-boolean condition}, x the body WRITES INTO THE LIST IT ITERATES OVER (sources list, deep, nested, sparse, clist: a template operation overwrites one slot in place on every pass — a slot visited later, the current one, one visited before, the slot after the last —: the items are the entries the list had when the loop started) x a child of the body logs a template that FAILS WHILE IT IS EXECUTED after having produced output (the line is the text as it stands, the lines rendered after it are what they are without it) x the same forEach operation VALUE executed twice (the second run does what the first did) x a log operation after the forEach / after the call that reads the variable / the arguments through a TEMPLATE (gone for the template engine's snapshot as for Lookup), with the direct predicates closed-form trace AND number of passes through the body == number of items (counted on listener events, whatever the body prints) AND final data == data at loop start except for the written slot; first the smallest such records, then random ones; loop: bound n in 0..6 x failure in iteration k (body or post) x counter written by post or body x with/without init; call: argsPath {default, single key, dotted 2 and 3, templated} x static (a text of the value range above, passed as it is) / templated argument x an argument (top-level and nested) whose template fails while it is executed after having produced output (it is passed as the text it is, the others rendered) x nested callee with its own argsPath x failure {none, inner, outer} x pre-existing data at the path's parent; callrep: ONE call operation that runs m = 0..5 times with argument templates (top-level and nested) whose input changes between the runs — in a loop body (input = counter), in a forEach body (input = item; call directly among the body's operations or in a `steps` child; literal items / list query) or as the same operation value passed to Execute repeatedly — x argsPath x failure from the k-th run on: the m-th run must see the arguments rendered against the data of the m-th run (closed-form trace); defs: all sequences of length<=4 over {define f=first, define f=second, define g, call f, call g, call undefined}; nest: 1..3 iteration mechanisms nested in each other — forEach (literal items / list query whose list may hold null entries, default or custom variable) / loop (bound 0..3) / call, each holding the next one among its body's OPERATIONS or in a `steps` child — whose innermost body reads every variable in scope when it runs (call arguments, or a template operation printed by a callable), x optional ext trace per body x failure from the k-th innermost run on: closed-form trace = product of the layers' items in order up to the failure, variables and arguments gone, nothing else disturbed; rand: random nested programs (texts now and then hold a template that fails while it is executed or does not parse; forEach in forEach — also over lists with null entries and over a null leaf —, loops and calls inside bodies, set/template bodies — some template operations write into a slot of one of the lists the program iterates over —, conditions that may be blank, depth<=3) compared with the model and with the independent Go reference interpreter of c12_ref.go (direct predicate; the reference answers inside its domain: plain dotted key paths, container queries with at most one key). Every program runs twice (Go structs, generated YAML). Non-trivial: at least one iteration / call actually executes. Distinct = distinct canonical case JSON.",
+		Rule: "item texts (VALUE RANGE; foreach, callrep and nest records): plain words and — one item in three — texts with leading / trailing / inner white space (space, tab, NBSP, NEL, CR, line ends), white-space-only and empty texts, letter-case twins, non-ASCII incl. supplementary-plane characters and U+FFFD, characters that look like syntax ({ } ( ) [ ] = : # ! \\ / . ~ -), digit strings beyond 64 bits and at 2^53+1, boolean / null spellings: the variable is bound to the item AS IT IS (texts yaml.v3 cannot carry through the generated-YAML entry point are left out; keys of a queried container stay path-safe, with letter-case twins). foreach: item source {literal items, list query, dotted list query, query of a list inside a list (`nest[1]`), query of a SPARSE list the program itself fills through indexed paths (`xs[3]`; the slots in between are padding), leaf query, container query, list of containers, missing path} x NULL entries (YAML nulls, never-written slots, a null leaf; one, several, all of them — a null entry is an item) x variable {default, named} x body {ext trace, log, both} + logging child + failing position {none, top-level abort/ext-fail (first item), conditional child at the first flagged item, non-boolean condition}, x the body WRITES INTO THE LIST IT ITERATES OVER (sources list, deep, nested, sparse, clist: a template operation overwrites one slot in place on every pass — a slot visited later, the current one, one visited before, the slot after the last —: the items are the entries the list had when the loop started) x a child of the body logs a template that FAILS WHILE IT IS EXECUTED after having produced output (the line is the text as it stands, the lines rendered after it are what they are without it) x the same forEach operation VALUE executed twice (the second run does what the first did) x a log operation after the forEach / after the call that reads the variable / the arguments through a TEMPLATE (gone for the template engine's snapshot as for Lookup), with the direct predicates closed-form trace AND number of passes through the body == number of items (counted on listener events, whatever the body prints) AND final data == data at loop start except for the written slot; first the smallest such records, then random ones; loop: bound n in 0..6 x failure in iteration k (body or post) x counter written by post or body x with/without init; call: argsPath {default, single key, dotted 2 and 3, templated} x static (a text of the value range above, passed as it is) / templated argument x an argument (top-level and nested) whose template fails while it is executed after having produced output (it is passed as the text it is, the others rendered) x nested callee with its own argsPath x failure {none, inner, outer} x pre-existing data at the path's parent; callrep: ONE call operation that runs m = 0..5 times with argument templates (top-level and nested) whose input changes between the runs — in a loop body (input = counter), in a forEach body (input = item; call directly among the body's operations or in a `steps` child; literal items / list query) or as the same operation value passed to Execute repeatedly — x argsPath x failure from the k-th run on: the m-th run must see the arguments rendered against the data of the m-th run (closed-form trace); defs: all sequences of length<=4 over {define f=first, define f=second, define g, call f, call g, call undefined}; nest: 1..3 iteration mechanisms nested in each other — forEach (literal items / list query whose list may hold null entries, default or custom variable) / loop (bound 0..3) / call, each holding the next one among its body's OPERATIONS or in a `steps` child — whose innermost body reads every variable in scope when it runs (call arguments, or a template operation printed by a callable), x optional ext trace per body x failure from the k-th innermost run on: closed-form trace = product of the layers' items in order up to the failure, variables and arguments gone, nothing else disturbed; rand: random nested programs (texts now and then hold a template that fails while it is executed or does not parse; forEach in forEach — also over lists with null entries and over a null leaf —, loops and calls inside bodies, set/template bodies — some template operations write into a slot of one of the lists the program iterates over —, conditions that may be blank, depth<=3) compared with the model and with the independent Go reference interpreter of c12_ref.go (direct predicate; the reference answers inside its domain: plain dotted key paths, container queries with at most one key). foreach, ROUND 6: VARIABLE NAMES THAT LOOK LIKE SYNTAX — a dotted path whose first segment is a leaf of the document (`other.item`), the list being iterated (`xs.cur`), a container (`keep.it`, `keep.x.y`), the queried container / leaf, or nothing (`fresh.v`); leading / trailing / doubled separators; a JSON pointer, a glob, k=v, a printf verb, a placeholder, an escape sequence, digits only, `-` — x every item source x failure position (first a fixed table: every name x literal items / list query x completes / aborts): the item is bound under exactly that key, the key is gone afterwards and the document after the loop is the document before it (the bodies of these records print a fixed text where the others print the item: no field chain can spell such a name). Every program runs twice (Go structs, generated YAML). Non-trivial: at least one iteration / call actually executes. Distinct = distinct canonical case JSON.",
 		Assumptions: []string{
 			"template semantics owned by the model: literal text and {{ .a.b }} field chains of scalars; strconv.ParseBool; trimming (template operations with trim, conditions) strips what strings.TrimSpace strips — unicode.IsSpace, NBSP and NEL included: the model's `trim` lists the same characters",
 			"loop counters are written by the harness' own ext action `inc` (data[id]++, data[id_go] := data[id] < n, data[id_end] := !(data[id] < n)), mirrored by the model",
 			"container queries: Go map order is unspecified, so traces are compared as multisets and bodies have per-item disjoint effects",
-			"variable names / argument paths are not otherwise present in the data (the property's domain); bodies do not write below the loop variable",
+			"variable names / argument paths are not otherwise present in the data as a key (the property's domain) and hold no index group; bodies do not write below the loop variable",
 			"item source of a list query = the entries the list has when the forEach starts (a body that overwrites or appends slots of that list does not change which items the running loop visits)",
 		}})
 	evals["C14"] = c14Eval
@@ -102,6 +102,9 @@ func c14VarName(v *string) string {
 }
 
 func (p *c14FE) ref() string {
+	if !c14PlainVar(p.Var) {
+		return c14OpaqueRef // a name no field chain can spell: the body's texts do not read the variable (c14LookVars)
+	}
 	if p.Source == "clist" {
 		return "{{ ." + c14VarName(p.Var) + ".n }}"
 	}
@@ -120,6 +123,9 @@ func (p *c14FE) isNull(i int) bool { return p.nullable() && i < len(p.Null) && p
 
 // what the templates of the body print for item i
 func (p *c14FE) text(i int) string {
+	if !c14PlainVar(p.Var) {
+		return c14OpaqueRef
+	}
 	if p.isNull(i) {
 		return "<no value>"
 	}
@@ -128,6 +134,18 @@ func (p *c14FE) text(i int) string {
 
 // norm brings a (possibly shrunk) record back into the domain
 func (p *c14FE) norm() {
+	if !c14PlainVar(p.Var) {
+		// a variable name that looks like syntax of another notation (c14LookVars): the body's texts cannot read it
+		// through a field chain, so the records keep to what does not need to — no slot written from the item, no
+		// condition over a field of the item, no template reading the variable afterwards
+		p.Write, p.After = 0, false
+		if p.Source == "clist" {
+			p.Fail = ""
+		}
+		if strings.ContainsAny(*p.Var, "[]") || strings.Contains(*p.Var, "{{") || *p.Var == "" {
+			p.Var = sp("it") // (an index group in a name is path syntax of AddValue itself: outside the domain)
+		}
+	}
 	defer func() {
 		// after the items are settled: the written slot is one of the list's, or the one after the last
 		if !p.writable() || p.Write < 0 || len(p.Items) == 0 {
@@ -1263,6 +1281,67 @@ func c14Run(c *Ctx) {
 		}
 		c.Do("rand", c14Rand{Data: c14RandData(), Prog: prog})
 	}
+	c14RunLookVars(c, strs)
+}
+
+// c14LookVars: VARIABLE NAMES THAT LOOK LIKE SYNTAX of a neighbouring notation.  A variable name is a name: the
+// item is bound under exactly that top-level key and the key is gone afterwards, whatever the name looks like — a
+// dotted path whose first segment is a leaf of the document (`other.item`), the list being iterated (`xs.cur`), a
+// container (`keep.it`, `keep.x.y`: the second segment a leaf), the queried container or leaf (`m.k`, `x.y`) or
+// nothing at all (`fresh.v`); a name with a leading / trailing / doubled separator; a JSON pointer, a glob, a
+// k=v selector, a printf verb, a placeholder, an escape sequence, digits only, the end-of-list token.  None of
+// them is present in the data as a key (the property's domain), none holds an index group (path syntax of
+// AddValue itself).  "… the variable is gone and the mechanism itself has disturbed no other data": the
+// document after the loop is the document before it.  No field chain can spell such a name, so the bodies of
+// these records print a fixed text in its place (c14OpaqueRef) and the trace shows passes and order only.
+var c14LookVars = []string{"other.item", "xs.cur", "keep.it", "keep.x.y", "fresh.v", "m.k", "x.y", "deep.er.xs.v", "nest.v", "other.a.b",
+	".it", "it.", "a..b", "/it", "/other/item", "a/b", "*", "it?", "k=v", "%s", "$it", "it\\n", "0", "-", "~it", "other", "xs"}
+
+const c14OpaqueRef = "(the item)"
+
+// c14PlainVar: the name is one a template field chain can spell (or the default).
+func c14PlainVar(v *string) bool { return v == nil || c14IdentRe.MatchString(*v) }
+
+func c14RunLookVars(c *Ctx, strs []string) {
+	r := c.Rng
+	// the smallest records first: every such name x a loop that completes / a body that aborts
+	for _, vn := range c14LookVars {
+		for _, src := range []string{"items", "list"} {
+			if (vn == "other") || (vn == "xs" && src == "list") {
+				continue // present in the data as a key: outside the domain
+			}
+			c.Do("foreach", c14FE{Source: src, Items: []string{"a", "b"}, Bad: []bool{false, false}, Log: true, Var: sp(vn)})
+			c.Do("foreach", c14FE{Source: src, Items: []string{"a", "b"}, Bad: []bool{false, false}, Ext: true, Fail: "abort", Var: sp(vn)})
+		}
+	}
+	for i := 0; i < c.N(250); i++ {
+		c.Tick()
+		p := c14FE{Source: pick(r, []string{"items", "list", "list", "deep", "nested", "sparse", "leaf", "cont", "clist", "missing"}),
+			Ext: r.Intn(2) == 0, Log: r.Intn(4) > 0, Child: r.Intn(2) == 0}
+		n := r.Intn(4)
+		p.Items = c14PickItems(r, strs, n, p.Source)
+		for j := 0; j < n; j++ {
+			p.Bad = append(p.Bad, false)
+		}
+		if p.nullable() && n > 0 && r.Intn(3) == 0 {
+			p.Null = make([]bool, n)
+			p.Null[r.Intn(n)] = true
+		}
+		p.Var = sp(pick(r, c14LookVars))
+		// the name is not a key of the data (the property's domain)
+		if dc, ok := wireCont(p.dataAt(true)); ok {
+			if _, has := dc[*p.Var]; has {
+				p.Var = sp("other.item")
+			}
+		}
+		if p.Source != "clist" {
+			p.Fail = pick(r, []string{"", "", "", "abort", "extfail", "cabort", "cext", "cond"})
+			p.When = pick(r, []string{"", "true", "false"})
+		}
+		p.Noise = r.Intn(6) == 0
+		p.Twice = r.Intn(6) == 0
+		c.Do("foreach", p)
+	}
 }
 
 // ---------------------------------------------------------------- evaluation
@@ -1345,6 +1424,21 @@ func c14Eval(c *Ctx, kind string, raw []byte) {
 			c.Dist("foreach:null-items:" + p.Source)
 			if nulls == len(p.Items) {
 				c.Dist("foreach:null-items:all-of-them")
+			}
+		}
+		if !c14PlainVar(p.Var) {
+			c.Dist("foreach:variable-name-looks-like-syntax")
+			if top, _, dotted := strings.Cut(*p.Var, "."); dotted {
+				if dc, ok := wireCont(atLoop); ok {
+					switch n, has := dc[top]; {
+					case !has:
+						c.Dist("foreach:variable-name-looks-like-a-path:first-segment-absent")
+					case wireKind(n) == "cont":
+						c.Dist("foreach:variable-name-looks-like-a-path:first-segment-is-a-container")
+					default:
+						c.Dist("foreach:variable-name-looks-like-a-path:first-segment-is-a-" + wireKind(n))
+					}
+				}
 			}
 		}
 		multiset = p.Source == "cont"
@@ -1436,7 +1530,8 @@ func c14Eval(c *Ctx, kind string, raw []byte) {
 			}
 			c.Direct("forEach-error-iff-failure"+v, (feErr != nil) == failed, fmt.Sprint(feErr))
 			// "when either finishes, normally or with an error, the variable … [is] gone"
-			c.Direct("forEach-variable-gone"+v, run.data.Lookup(vname) == nil, map[string]any{"var": vname, "data": run.dataWire()})
+			_, stillThere := run.data.Children()[vname]
+			c.Direct("forEach-variable-gone"+v, run.data.Lookup(vname) == nil && !stillThere, map[string]any{"var": vname, "data": run.dataWire()})
 			// "… and the mechanism itself has disturbed no other data" (these bodies have no data effects)
 			c.Direct("forEach-no-other-data-disturbed"+v, canon(run.dataWire()) == canon(final),
 				map[string]any{"after": run.dataWire(), "expected": final})
